@@ -5,129 +5,244 @@
 use std::borrow::Borrow;
 use std::fmt;
 
-#[derive(Clone)]
-pub struct HashMap<K, V> {
-    items: Vec<(K, V)>,
+/// Keys rdest uses are byte strings (`String` addresses, `Vec<u8>` dictionary keys).  Comparing
+/// two heap strings through `memcmp` is what makes CBMC explode (13 GB for four inserts), so
+/// every entry caches a fingerprint of its key -- length plus the first 16 bytes -- computed
+/// once, loop-free, from the key object at hand; lookups compare fingerprints and fall back to
+/// the real `==` only for keys longer than 16 bytes with equal fingerprints.  Equality
+/// semantics are unchanged.
+pub trait ModelKey {
+    fn key_bytes(&self) -> &[u8];
 }
+impl ModelKey for String {
+    fn key_bytes(&self) -> &[u8] {
+        self.as_bytes()
+    }
+}
+impl ModelKey for str {
+    fn key_bytes(&self) -> &[u8] {
+        self.as_bytes()
+    }
+}
+impl ModelKey for Vec<u8> {
+    fn key_bytes(&self) -> &[u8] {
+        self.as_slice()
+    }
+}
+impl ModelKey for [u8] {
+    fn key_bytes(&self) -> &[u8] {
+        self
+    }
+}
+impl<T: ModelKey + ?Sized> ModelKey for &T {
+    fn key_bytes(&self) -> &[u8] {
+        (**self).key_bytes()
+    }
+}
+
+#[derive(Clone, Copy, PartialEq, Eq)]
+struct Fp {
+    len: usize,
+    a: u64,
+    b: u64,
+}
+
+fn fp(bytes: &[u8]) -> Fp {
+    let len = bytes.len();
+    macro_rules! pack {
+        ($($i:literal)*) => {{
+            let mut v: u64 = 0;
+            $( if len > $i { v |= (bytes[$i] as u64) << (8 * ($i % 8)); } )*
+            v
+        }};
+    }
+    Fp {
+        len,
+        a: pack!(0 1 2 3 4 5 6 7),
+        b: pack!(8 9 10 11 12 13 14 15),
+    }
+}
+
+pub const MODEL_CAPACITY: usize = 16;
+
+/// Fixed-capacity association list: `slots[..n]` are the entries in insertion order.  A plain
+/// array plus an explicit counter (instead of `Vec`s) keeps every loop bound and every index a
+/// constant for CBMC's constant propagation; `Vec::len()` is not, and each lookup then unrolls
+/// to the harness' unwind bound.  More than 16 entries is reported as a failed check.
+/// Values are boxed so that moving entries moves two words.
+pub struct HashMap<K, V> {
+    slots: [Option<(K, Box<V>)>; MODEL_CAPACITY],
+    fps: [Fp; MODEL_CAPACITY],
+    n: usize,
+}
+
+const NO_FP: Fp = Fp { len: usize::MAX, a: 0, b: 0 };
 
 impl<K, V> Default for HashMap<K, V> {
     fn default() -> Self {
-        HashMap { items: Vec::new() }
+        HashMap {
+            slots: [
+                None, None, None, None, None, None, None, None, None, None, None, None, None, None, None, None,
+            ],
+            fps: [NO_FP; MODEL_CAPACITY],
+            n: 0,
+        }
     }
 }
 
-impl<K: Eq, V> HashMap<K, V> {
+impl<K: Clone, V: Clone> Clone for HashMap<K, V> {
+    fn clone(&self) -> Self {
+        let mut m: HashMap<K, V> = Default::default();
+        let mut i = 0;
+        while i < self.n {
+            m.slots[i] = self.slots[i].clone();
+            m.fps[i] = self.fps[i];
+            i += 1;
+        }
+        m.n = self.n;
+        m
+    }
+}
+
+impl<K, V> HashMap<K, V> {
+    fn entry(&self, i: usize) -> &(K, Box<V>) {
+        match &self.slots[i] {
+            Some(e) => e,
+            None => panic!("std-model HashMap: empty slot below n"),
+        }
+    }
+    fn entry_mut(&mut self, i: usize) -> &mut (K, Box<V>) {
+        match &mut self.slots[i] {
+            Some(e) => e,
+            None => panic!("std-model HashMap: empty slot below n"),
+        }
+    }
+}
+
+impl<K: Eq + ModelKey, V> HashMap<K, V> {
     pub fn new() -> Self {
-        HashMap { items: Vec::new() }
+        Default::default()
     }
 
     pub fn len(&self) -> usize {
-        self.items.len()
+        self.n
     }
 
     pub fn is_empty(&self) -> bool {
-        self.items.is_empty()
+        self.n == 0
+    }
+
+    /// Index of the entry whose key equals `k`.
+    fn find<Q: ?Sized + Eq + ModelKey>(&self, k: &Q) -> Option<usize>
+    where
+        K: Borrow<Q>,
+    {
+        let want = fp(k.key_bytes());
+        let mut i = 0;
+        while i < self.n {
+            if self.fps[i] == want && (want.len <= 16 || self.entry(i).0.borrow() == k) {
+                return Some(i);
+            }
+            i += 1;
+        }
+        None
     }
 
     pub fn insert(&mut self, k: K, v: V) -> Option<V> {
-        for item in self.items.iter_mut() {
-            if item.0 == k {
-                return Some(std::mem::replace(&mut item.1, v));
+        match self.find(&k) {
+            Some(i) => Some(std::mem::replace(&mut *self.entry_mut(i).1, v)),
+            None => {
+                assert!(self.n < MODEL_CAPACITY, "std-model HashMap: more than 16 entries");
+                let i = self.n;
+                self.fps[i] = fp(k.key_bytes());
+                self.slots[i] = Some((k, Box::new(v)));
+                self.n = i + 1;
+                None
             }
         }
-        self.items.push((k, v));
-        None
     }
 
-    pub fn get<Q: ?Sized + Eq>(&self, k: &Q) -> Option<&V>
+    pub fn get<Q: ?Sized + Eq + ModelKey>(&self, k: &Q) -> Option<&V>
     where
         K: Borrow<Q>,
     {
-        for item in self.items.iter() {
-            if item.0.borrow() == k {
-                return Some(&item.1);
-            }
+        match self.find(k) {
+            Some(i) => Some(&*self.entry(i).1),
+            None => None,
         }
-        None
     }
 
-    pub fn get_mut<Q: ?Sized + Eq>(&mut self, k: &Q) -> Option<&mut V>
+    pub fn get_mut<Q: ?Sized + Eq + ModelKey>(&mut self, k: &Q) -> Option<&mut V>
     where
         K: Borrow<Q>,
     {
-        for item in self.items.iter_mut() {
-            if item.0.borrow() == k {
-                return Some(&mut item.1);
-            }
+        match self.find(k) {
+            Some(i) => Some(&mut *self.entry_mut(i).1),
+            None => None,
         }
-        None
     }
 
-    pub fn contains_key<Q: ?Sized + Eq>(&self, k: &Q) -> bool
+    pub fn contains_key<Q: ?Sized + Eq + ModelKey>(&self, k: &Q) -> bool
     where
         K: Borrow<Q>,
     {
-        self.get(k).is_some()
+        self.find(k).is_some()
     }
 
-    pub fn remove<Q: ?Sized + Eq>(&mut self, k: &Q) -> Option<V>
+    /// Removes the entry and closes the gap (order of the others is kept).
+    pub fn remove<Q: ?Sized + Eq + ModelKey>(&mut self, k: &Q) -> Option<V>
     where
         K: Borrow<Q>,
     {
-        let mut idx = None;
-        for (i, item) in self.items.iter().enumerate() {
-            if item.0.borrow() == k {
-                idx = Some(i);
-                break;
+        match self.find(k) {
+            Some(i) => {
+                let e = self.slots[i].take();
+                let mut j = i;
+                while j + 1 < self.n {
+                    self.slots[j] = self.slots[j + 1].take();
+                    self.fps[j] = self.fps[j + 1];
+                    j += 1;
+                }
+                self.n -= 1;
+                self.fps[self.n] = NO_FP;
+                e.map(|(_, v)| *v)
             }
+            None => None,
         }
-        idx.map(|i| self.items.remove(i).1)
     }
 
     pub fn iter(&self) -> Iter<'_, K, V> {
-        Iter {
-            inner: self.items.iter(),
-        }
-    }
-
-    pub fn iter_mut(&mut self) -> IterMut<'_, K, V> {
-        IterMut {
-            inner: self.items.iter_mut(),
-        }
+        Iter { map: self, i: 0 }
     }
 
     pub fn keys(&self) -> impl Iterator<Item = &K> {
-        self.items.iter().map(|(k, _)| k)
+        self.iter().map(|(k, _)| k)
     }
 
     pub fn values(&self) -> impl Iterator<Item = &V> {
-        self.items.iter().map(|(_, v)| v)
+        self.iter().map(|(_, v)| v)
     }
 }
 
 pub struct Iter<'a, K, V> {
-    inner: std::slice::Iter<'a, (K, V)>,
+    map: &'a HashMap<K, V>,
+    i: usize,
 }
 
 impl<'a, K, V> Iterator for Iter<'a, K, V> {
     type Item = (&'a K, &'a V);
     fn next(&mut self) -> Option<Self::Item> {
-        self.inner.next().map(|(k, v)| (k, v))
+        if self.i < self.map.n {
+            let e = self.map.entry(self.i);
+            self.i += 1;
+            Some((&e.0, &*e.1))
+        } else {
+            None
+        }
     }
 }
 
-pub struct IterMut<'a, K, V> {
-    inner: std::slice::IterMut<'a, (K, V)>,
-}
-
-impl<'a, K, V> Iterator for IterMut<'a, K, V> {
-    type Item = (&'a K, &'a mut V);
-    fn next(&mut self) -> Option<Self::Item> {
-        self.inner.next().map(|(k, v)| (&*k, v))
-    }
-}
-
-impl<'a, K: Eq, V> IntoIterator for &'a HashMap<K, V> {
+impl<'a, K: Eq + ModelKey, V> IntoIterator for &'a HashMap<K, V> {
     type Item = (&'a K, &'a V);
     type IntoIter = Iter<'a, K, V>;
     fn into_iter(self) -> Self::IntoIter {
@@ -135,15 +250,33 @@ impl<'a, K: Eq, V> IntoIterator for &'a HashMap<K, V> {
     }
 }
 
-impl<K, V> IntoIterator for HashMap<K, V> {
+pub struct IntoIter<K, V> {
+    map: HashMap<K, V>,
+    i: usize,
+}
+
+impl<K, V> Iterator for IntoIter<K, V> {
     type Item = (K, V);
-    type IntoIter = std::vec::IntoIter<(K, V)>;
-    fn into_iter(self) -> Self::IntoIter {
-        self.items.into_iter()
+    fn next(&mut self) -> Option<(K, V)> {
+        if self.i < self.map.n {
+            let e = self.map.slots[self.i].take();
+            self.i += 1;
+            e.map(|(k, v)| (k, *v))
+        } else {
+            None
+        }
     }
 }
 
-impl<K: Eq, V> FromIterator<(K, V)> for HashMap<K, V> {
+impl<K, V> IntoIterator for HashMap<K, V> {
+    type Item = (K, V);
+    type IntoIter = IntoIter<K, V>;
+    fn into_iter(self) -> Self::IntoIter {
+        IntoIter { map: self, i: 0 }
+    }
+}
+
+impl<K: Eq + ModelKey, V> FromIterator<(K, V)> for HashMap<K, V> {
     fn from_iter<I: IntoIterator<Item = (K, V)>>(iter: I) -> Self {
         let mut m = HashMap::new();
         for (k, v) in iter {
@@ -153,7 +286,7 @@ impl<K: Eq, V> FromIterator<(K, V)> for HashMap<K, V> {
     }
 }
 
-impl<K: Eq, V, Q: ?Sized + Eq> std::ops::Index<&Q> for HashMap<K, V>
+impl<K: Eq + ModelKey, V, Q: ?Sized + Eq + ModelKey> std::ops::Index<&Q> for HashMap<K, V>
 where
     K: Borrow<Q>,
 {
@@ -163,16 +296,19 @@ where
     }
 }
 
-impl<K: Eq, V: PartialEq> PartialEq for HashMap<K, V> {
+impl<K: Eq + ModelKey, V: PartialEq> PartialEq for HashMap<K, V> {
     fn eq(&self, other: &Self) -> bool {
-        if self.items.len() != other.items.len() {
+        if self.n != other.n {
             return false;
         }
-        for (k, v) in self.items.iter() {
-            match other.get(k) {
-                Some(ov) if ov == v => {}
+        let mut i = 0;
+        while i < self.n {
+            let e = self.entry(i);
+            match other.get(&e.0) {
+                Some(ov) if *ov == *e.1 => {}
                 _ => return false,
             }
+            i += 1;
         }
         true
     }
@@ -180,8 +316,13 @@ impl<K: Eq, V: PartialEq> PartialEq for HashMap<K, V> {
 
 impl<K: fmt::Debug, V: fmt::Debug> fmt::Debug for HashMap<K, V> {
     fn fmt(&self, f: &mut fmt::Formatter<'_>) -> fmt::Result {
-        f.debug_map()
-            .entries(self.items.iter().map(|(k, v)| (k, v)))
-            .finish()
+        let mut d = f.debug_map();
+        let mut i = 0;
+        while i < self.n {
+            let e = self.entry(i);
+            d.entry(&e.0, &*e.1);
+            i += 1;
+        }
+        d.finish()
     }
 }
